@@ -17,7 +17,7 @@ READERS = {'uvl': T.UVLReader, 'json': T.JSONReader, 'afm': T.AFMReader, 'fide':
 EXT = {'uvl': '.uvl', 'json': '.json', 'afm': '.afm', 'fide': '.xml', 'glencoe': '.gfm.json',
        'splot': '.sxfm', 'clafer': '.txt', 'pl': '.exp', 'xml': '.xml'}
 
-_counter = [0]
+_counter = [0, 0]
 
 
 def iodir():
@@ -81,7 +81,11 @@ def read_event(fmt, path, naming, action='Read', args=None):
     model = None
     try:
         with time_limit(30):
-            model = READERS[fmt](path).transform()
+            reader = READERS[fmt](path)
+            model = reader.transform()
+            _counter[1] += 1
+            if _counter[1] % 4 == 0:      # one reader object used twice (a reader kept per path): the second result counts
+                model = reader.transform()
     except (Exception, CallTimeout) as exc:
         out = 'error:' + errname(exc)
     post = {'root': '', 'feats': [], 'rels': [], 'ctcs': []}
